@@ -128,6 +128,42 @@ T['flat_st_x2_cross'] = wide(12) + " flat_store_dwordx2 v[17:18], v[20:21]\n s_w
 T['flat_ld_x4_cross12'] = wide(12, 's8', 's9') + " flat_load_dwordx4 v[24:27], v[17:18]\n s_waitcnt vmcnt(0)\n v_xor_b32 v22, v24, v27\n v_xor_b32 v23, v25, v26"
 T['flat_ld_x2_cross'] = wide(12, 's10', 's11') + " flat_load_dwordx2 v[22:23], v[17:18]\n s_waitcnt vmcnt(0)"
 T['flat_st_partial_exec'] = "s_mov_b64 s[24:25], exec\n s_mov_b64 exec, 0xaaaaaaaa\n flat_store_dword v[15:16], v20\n s_waitcnt vmcnt(0)\n s_mov_b64 exec, s[24:25]"
+# --- a loop whose vector memory instruction runs with no lane enabled the first time round and with all lanes afterwards
+# (per-PC state that a unit keeps from a fully masked execution must not leak into the next iteration)
+T['loop_masked_store'] = """s_mov_b64 s[24:25], exec
+ s_mov_b32 s26, 0
+L3:
+ s_cmp_eq_u32 s26, 0
+ s_cbranch_scc1 L3a
+ s_mov_b64 exec, s[24:25]
+ s_branch L3b
+L3a:
+ s_mov_b64 exec, 0
+L3b:
+ v_add_u32 v20, vcc, 1, v20
+ flat_store_dword v[15:16], v20
+ s_waitcnt vmcnt(0)
+ s_mov_b64 exec, s[24:25]
+ s_add_u32 s26, s26, 1
+ s_cmp_lt_u32 s26, 3
+ s_cbranch_scc1 L3"""
+T['loop_masked_load'] = """s_mov_b64 s[24:25], exec
+ s_mov_b32 s26, 0
+L4:
+ s_cmp_eq_u32 s26, 0
+ s_cbranch_scc1 L4a
+ s_mov_b64 exec, s[24:25]
+ s_branch L4b
+L4a:
+ s_mov_b64 exec, 0
+L4b:
+ flat_load_dword v22, v[9:10]
+ s_waitcnt vmcnt(0)
+ v_add_u32 v23, vcc, v22, v23
+ s_mov_b64 exec, s[24:25]
+ s_add_u32 s26, s26, 1
+ s_cmp_lt_u32 s26, 3
+ s_cbranch_scc1 L4"""
 T['flat_two_outstanding'] = "flat_load_dword v22, v[9:10]\n flat_load_dword v23, v[11:12]\n s_waitcnt vmcnt(1)\n v_add_u32 v20, vcc, v22, v20\n s_waitcnt vmcnt(0)\n v_add_u32 v21, vcc, v23, v21"
 
 if __name__ == '__main__':
